@@ -74,4 +74,45 @@ theorem denseAgg_lawful (axis : Option Nat) (W : Nat) (h : axis = none ∨ axis 
     · exact (denseCM_append_none W xs ys).symm
     · exact (denseCM_append_macro W xs ys).symm
 
+
+/-! ## samples axis: one entry per example -/
+
+def appendV : Arr Int → Arr Int → Arr Int
+  | .v a, .v b => .v (a ++ b)
+  | a, _ => a
+
+theorem zip_fst_snd : ∀ (xs : List DenseEx), (xs.map (·.1)).zip (xs.map (·.2)) = xs
+  | [] => rfl
+  | x :: xs => by simp [zip_fst_snd xs]
+
+theorem rowsAligned_of (xs : List DenseEx) (h : ∀ x ∈ xs, x.1.length = x.2.length) :
+    RowsAligned (xs.map (·.1)) (xs.map (·.2)) := by
+  refine ⟨by simp, ?_⟩
+  rw [zip_fst_snd]
+  exact h
+
+open MlModel.Spec.Classification in
+/-- with `axis = 1` the `i`-th entry of every array is computed from example `i` alone -/
+theorem denseCM_samples (W : Nat) (xs : List DenseEx) (h : ∀ x ∈ xs, x.1.length = x.2.length) :
+    denseCM (some 1) W xs =
+      { tp := .v (xs.map fun x => (tpOf (rowCells x.1 x.2) : Int)),
+        tn := .v (xs.map fun x => (tnOf (rowCells x.1 x.2) : Int)),
+        fp := .v (xs.map fun x => (fpOf (rowCells x.1 x.2) : Int)),
+        fn := .v (xs.map fun x => (fnOf (rowCells x.1 x.2) : Int)) } := by
+  rw [denseCM, countsOf_samples W _ _ (rowsAligned_of xs h), zip_fst_snd]
+
+theorem denseCM_samples_append (W : Nat) (xs ys : List DenseEx)
+    (hx : ∀ x ∈ xs, x.1.length = x.2.length) (hy : ∀ x ∈ ys, x.1.length = x.2.length) :
+    denseCM (some 1) W (xs ++ ys) =
+      { tp := appendV (denseCM (some 1) W xs).tp (denseCM (some 1) W ys).tp,
+        tn := appendV (denseCM (some 1) W xs).tn (denseCM (some 1) W ys).tn,
+        fp := appendV (denseCM (some 1) W xs).fp (denseCM (some 1) W ys).fp,
+        fn := appendV (denseCM (some 1) W xs).fn (denseCM (some 1) W ys).fn } := by
+  have hxy : ∀ x ∈ xs ++ ys, x.1.length = x.2.length := by
+    intro x hm; rcases List.mem_append.mp hm with h | h
+    · exact hx x h
+    · exact hy x h
+  rw [denseCM_samples W _ hxy, denseCM_samples W _ hx, denseCM_samples W _ hy]
+  simp [appendV]
+
 end MlModel.Agg.Confusion
